@@ -29,7 +29,7 @@ MixedEnumW == TEnum(<<Member("auto", VStr("auto"), "string"), Member("5", VStr("
 MixedEnumN == TEnum(<<Member("0", VStr("0"), "string"), Member("unlimited", VStr("unlimited"), "string"), Member("3", VStr("3"), "string")>>)
 
 Leaves == <<TString, TScalar("int64"), TRef("p", "S"), TRef("p", "E"), AnonEnum, AnonStruct, TRef("p", "U"), IntEnum,
-            NumStrEnum, ConstUnion, TRef("p", "A2"), SignUnion, MixedEnumW, MixedEnumN>>
+            NumStrEnum, ConstUnion, TRef("p", "A2"), SignUnion, MixedEnumW, MixedEnumN, TRef("p", "Sg")>>
 
 \* constructors applied to an inner type x (the position under test)
 Ctors == <<"array", "mapval", "mapkey", "field", "optfield", "ornull", "orstring", "orref", "allof">>
@@ -59,6 +59,8 @@ SObj == Obj("p", "S", TStruct(<<Field("kind", TConst("string", VStr("s")), TRUE)
 S2Obj == Obj("p", "S2", TStruct(<<Field("kind", TConst("string", VStr("s2")), TRUE)>>))
 EObj == Obj("p", "E", TEnum(<<Member("on", VStr("on"), "string"), Member("off", VStr(""), "string")>>))
 UObj == Obj("p", "U", TDisj(<<TRef("p", "S"), TRef("p", "S2")>>, "", <<>>))
+\* a named enum whose member names are nothing but a sign (the shortest names a sanitiser must handle)
+SgObj == Obj("p", "Sg", TEnum(<<Member("+", VStr("+"), "string"), Member("-", VStr("-"), "string"), Member("x", VStr("x"), "string")>>))
 \* an alias of an alias of a scalar (aliases are inlined by some chains)
 A1Obj == Obj("p", "A1", TString)
 A2Obj == Obj("p", "A2", TRef("p", "A1"))
@@ -76,7 +78,7 @@ CaseIR(shape, leaf, pos) ==
                 [] pos = "object"   -> Obj("p", "Root", t)
       \* a second package holding the SAME type under test (objects generated from it must exist in BOTH packages)
       mirror == Obj("q", "Mirror", TStruct(<<Field("m", t, TRUE)>>))
-  IN <<SchemaOf("p", <<root, SObj, S2Obj, EObj, UObj, A1Obj, A2Obj>>), SchemaOf("q", <<mirror>>)>>
+  IN <<SchemaOf("p", <<root, SObj, S2Obj, EObj, UObj, A1Obj, A2Obj, SgObj>>), SchemaOf("q", <<mirror>>)>>
 
 Cases == {[shape |-> s, leaf |-> l, pos |-> ps] :
             s \in {x \in Shapes(MaxDepth) : TRUE}, l \in DOMAIN Leaves, ps \in Positions}
